@@ -19,7 +19,8 @@ class ClosestImputer(EagerImputer):
         if len(design_vectors) == 0:
             return vector, np.zeros((0, 0), dtype=int)
 
-        elements, target = design_vectors, np.array(vector)
+        # Design vectors of this existence pattern may use less than all design variables
+        elements, target = design_vectors, np.array(vector)[:design_vectors.shape[1]]
         if self.euclidean:
             dist = self._calc_dist_euclidean(elements, target)
         else:
